@@ -144,6 +144,7 @@ MonMeta(m, ev) ==
         <<ev.output # OutputEncoding(enc), "C20.output-encoding">>,
         <<ev.outout # ev.output, "C20.output-encoding-idempotent">>,
         <<ev.encoder # ev.output, "C20.new-encoder-encoding">>,
+        <<\E j \in 1..Len(ev.encodeUsed) : ev.encodeUsed[j] # OutputEncoding(enc), "C20.encode-reports-encoding">>,
         <<ev.label # enc, "C20.name-resolves-to-self">>,
         <<\E j \in 1..Len(ev.eq) : ev.eq[j] # (j = ev.index), "C20.equality">>,
         <<\E j \in 1..Len(ev.hasheq) : ev.hasheq[j] # (j = ev.index), "C20.hash">>,
